@@ -1,7 +1,10 @@
 """property -> rules mapping and the run context (facts per cfg configuration, thorough-tier matrix)."""
 import facts
 import r04_conv
+import r06_validate
 import r07_cache
+import r08_toporder
+import r09_shared
 
 MATRIX = ["baseline", "nofeat", "norayon", "pcsaft", "pcsaft_dft", "epcsaft", "gc_pcsaft", "gc_pcsaft_dft",
           "pets", "pets_dft", "uvtheory", "saftvrmie", "saftvrqmie", "saftvrqmie_dft", "estimator"]
@@ -34,9 +37,21 @@ def r7(ctx, prop):
     return r07_cache.run(ctx.F())
 
 
+def r6(ctx, prop):
+    return r06_validate.run(ctx.F())
+
+
+def r8(ctx, prop):
+    return r08_toporder.run(ctx.F())
+
+
+def r9(ctx, prop):
+    return r09_shared.run(ctx.F())
+
+
 PROPERTY_RULES = {
-    "C11": [r7],
-    "C03": [r4],
+    "C11": [r9, r7],
+    "C03": [r6, r4],
     "C04": [r4],
     "C05": [r4],
     "C06": [r4],
